@@ -30,7 +30,7 @@ import (
 	"verif/internal/model"
 )
 
-const rule = "cases: constructor arguments derived from generated specs - NewRouterInfo (Ed25519 identity, 0..8 addresses built by NewRouterAddress with arbitrary option maps incl. empty values and one-character keys, arbitrary options), NewLeaseSet (destination signing types DSA incl. NULL certificate, P-256, Ed25519, RedDSA; 0..16 leases), NewLeaseSet2 (every flag combination of bits 1-2, 1..16 keys incl. unassigned and experimental key types of any length, 1..16 leases, options, offline block created by CreateOfflineSignature (Ed25519 / RedDSA destinations) or by NewOfflineSignature around the destination's own DSA signature (DSA destinations, KEY and NULL certificate), transient types 0,1,7,11), NewEncryptedLeaseSet and NewEncryptedLeaseSetFromDestination (all four accepted key representations, with and without offline block), CreateOfflineSignature (destination types 7, 11). Oracle: constructor succeeded with the private key matching the identity => Verify succeeds; Read*(Bytes()) succeeds with an empty remainder and the parsed value verifies; the independent verifier of C05 (stdlib crypto over the raw bytes, specification prefix) accepts the bytes. Non-trivial: >= 1 option, address, lease beyond the first, or offline block; distinct by output bytes minus signature."
+const rule = "cases: constructor arguments derived from generated specs - NewRouterInfo (Ed25519 identity, 0..8 addresses built by NewRouterAddress with arbitrary option maps incl. empty values and one-character keys, arbitrary options), NewLeaseSet (destination signing types DSA incl. NULL certificate, P-256, Ed25519, RedDSA; 0..16 leases), NewLeaseSet2 (every flag combination of bits 1-2, 1..16 keys incl. unassigned and experimental key types of any length, 1..16 leases, options, offline block created by CreateOfflineSignature (Ed25519 / RedDSA destinations) or by NewOfflineSignature around the destination's own DSA signature (DSA destinations, KEY and NULL certificate), transient types 0,1,7,11), NewEncryptedLeaseSet and NewEncryptedLeaseSetFromDestination (all four accepted key representations, with and without offline block), CreateOfflineSignature (destination types 7, 11, and 8 where the constructor signs at all). Oracle: constructor succeeded with the private key matching the identity => Verify succeeds; Read*(Bytes()) succeeds with an empty remainder and the parsed value verifies; the independent verifier of C05 (stdlib crypto over the raw bytes, specification prefix) accepts the bytes. Non-trivial: >= 1 option, address, lease beyond the first, or offline block; distinct by output bytes minus signature."
 
 // touch calls every argument-free exported method of v (and of the library
 // values those return) once; a read-only accessor must not change what verifies.
@@ -57,7 +57,8 @@ type Case struct {
 	LS   *gen.LeaseSetSpec   `json:"ls,omitempty"`
 	LS2  *gen.LS2Spec        `json:"ls2,omitempty"`
 	ELS  *gen.ELSSpec        `json:"els,omitempty"`
-	Rep  int                 `json:"key_rep,omitempty"` // representation of the Ed25519 key handed to the ELS constructors
+	Rep  int                 `json:"key_rep,omitempty"`   // representation of the Ed25519 key handed to the ELS constructors
+	PH   bool                `json:"ed25519ph,omitempty"` // offline kind: destination signature type 8 over the Ed25519 key
 }
 
 func pairsToMap(p gen.Pairs) map[string]string {
@@ -437,7 +438,15 @@ func checkOffline(c Case, r *ev.Rec) error {
 	if tk := model.NewSignKey(s.Offline.TType, s.Offline.Seed); tk != nil {
 		tpub = tk.Pub
 	}
-	off, err := offline_signature.CreateOfflineSignature(s.Offline.Expires, uint16(s.Offline.TType), tpub, edPriv(key), uint16(id.SigType))
+	destType := id.SigType
+	if c.PH && id.SigType == 7 {
+		destType = 8 // Ed25519ph: the same key material, pre-hashed signing; if the constructor signs, the result must verify
+	}
+	off, err := offline_signature.CreateOfflineSignature(s.Offline.Expires, uint16(s.Offline.TType), tpub, edPriv(key), uint16(destType))
+	if destType == 8 && err != nil {
+		r.Class("offline:ed25519ph-not-signed")
+		return nil
+	}
 	if s.Offline.Expires == 0 {
 		if err == nil {
 			return fmt.Errorf("CreateOfflineSignature accepted expires = 0")
@@ -453,7 +462,7 @@ func checkOffline(c Case, r *ev.Rec) error {
 	}
 	b := off.Bytes()
 	wire := append(append([]byte{}, b...), 1, 2)
-	back, rem, err := offline_signature.ReadOfflineSignature(wire, uint16(id.SigType))
+	back, rem, err := offline_signature.ReadOfflineSignature(wire, uint16(destType))
 	if err != nil || len(rem) != 2 {
 		return fmt.Errorf("ReadOfflineSignature(Bytes()) failed: %v (remainder %d)", err, len(rem))
 	}
@@ -463,6 +472,10 @@ func checkOffline(c Case, r *ev.Rec) error {
 	reuse(wire)
 	if ok, err := back.VerifySignature(id.Sig); !ok || err != nil {
 		return fmt.Errorf("offline signature parsed back from its bytes no longer verifies once the receive buffer is reused for other data: %v %v", ok, err)
+	}
+	if destType == 8 {
+		r.Class("offline:ed25519ph-signed-and-verified")
+		return nil // the model has no pre-hashed verifier; the library's own verdicts above are the check
 	}
 	dm, n, err := model.DecodeOffline(b, id.SigType)
 	if err != nil || n != len(b) || !model.Verify(id.SigType, id.Sig, dm.SignedPart(), dm.Sig) {
@@ -538,6 +551,7 @@ func genCase(t *rapid.T) Case {
 		s.Header.Dest.NullCert = false
 		s.Header.Offline = gen.OfflineG(t, "off", []int{7, 11, 0, 1, 2, 3, 4})
 		c.LS2 = &s
+		c.PH = rapid.IntRange(0, 5).Draw(t, "ph") == 0
 	}
 	return c
 }
